@@ -47,11 +47,15 @@ func init() { props["C09"] = runE2E }
 type JArgs struct {
 	Id  int
 	Pad []byte
+	Big interface{} // an integer beyond 2^53 in an untyped position (an id, a hash): it arrives as the same integer
 }
 type JReply struct {
 	Id  int
 	Pad []byte
+	Big interface{}
 }
+
+func bigOf(id int) int64 { return 9007199254740993 + int64(id)*2 }
 
 // hand-written protobuf message { int32 id = 1; bytes pad = 2; }
 type PMsg struct {
@@ -262,8 +266,8 @@ func (t *E2E) common(ctx context.Context, args interface{}) {
 	t.st.put(cp["cid"], e2eObs{args: canonV(args), meta: cp})
 }
 func (t *E2E) J(ctx context.Context, a *JArgs, r *JReply) error {
-	t.common(ctx, &JArgs{Id: a.Id, Pad: append([]byte(nil), a.Pad...)})
-	r.Id, r.Pad = a.Id, flip(a.Pad)
+	t.common(ctx, &JArgs{Id: a.Id, Pad: append([]byte(nil), a.Pad...), Big: a.Big})
+	r.Id, r.Pad, r.Big = a.Id, flip(a.Pad), a.Big
 	return nil
 }
 func (t *E2E) P(ctx context.Context, a *PMsg, r *PMsg) error {
@@ -415,7 +419,7 @@ func e2eArgs(ser protocol.SerializeType, id int, pad []byte) (args, reply, want 
 	case protocol.Thrift:
 		return &TMsg{Id: int32(id), Pad: pad}, &TMsg{}, &TMsg{Id: int32(id), Pad: flip(pad)}
 	default:
-		return &JArgs{Id: id, Pad: pad}, &JReply{}, &JReply{Id: id, Pad: flip(pad)}
+		return &JArgs{Id: id, Pad: pad, Big: bigOf(id)}, &JReply{}, &JReply{Id: id, Pad: flip(pad), Big: bigOf(id)}
 	}
 }
 
